@@ -85,6 +85,8 @@ func main() {
 		os.Exit(cmdExplain(os.Args[2:]))
 	case "sym":
 		os.Exit(cmdSym(os.Args[2:]))
+	case "s2c":
+		os.Exit(cmdS2C(os.Args[2:]))
 	case "list":
 		ids := []string{}
 		for id := range registry {
